@@ -235,6 +235,35 @@ func VerifC14_Metrics() {
 	verifAssert(len(up.encodings) == 1 && up.encodings[0] == want, "Content-Encoding header names the compression used")
 }
 
+// VerifC14_TwoSeries: two series of ONE name (different tag sets / sources) for every metric
+// type, symbolic values and set members: each series keeps its own values, members, tags and
+// source through the wire.
+func VerifC14_TwoSeries() {
+	compress, ct := verifCompression()
+	hfh, up := verifNewForwarder(false, 1, compress, ct, 30*time.Second)
+	mm := gostatsd.NewMetricMap(false)
+	ta, tb := gostatsd.Tags{"a:" + verifAsciiString(1)}, gostatsd.Tags{"b:2", "c:3"}
+	sa, sb := gostatsd.Source("h1"), gostatsd.Source(verifAsciiString(1))
+	mm.Counters["n"] = map[string]gostatsd.Counter{"ka": {Value: nondetInt64(), Tags: ta, Source: sa}, "kb": {Value: nondetInt64(), Tags: tb, Source: sb}}
+	mm.Gauges["n"] = map[string]gostatsd.Gauge{"ka": {Value: nondetFloat64(), Tags: ta, Source: sa}, "kb": {Value: nondetFloat64(), Tags: tb, Source: sb}}
+	mm.Timers["n"] = map[string]gostatsd.Timer{
+		"ka": {Values: []float64{nondetFloat64(), nondetFloat64()}, SampledCount: 2, Tags: ta, Source: sa},
+		"kb": {Values: []float64{nondetFloat64()}, SampledCount: nondetFloat64(), Tags: tb, Source: sb}}
+	m1, m2 := verifAsciiString(1), verifAsciiString(1)
+	mm.Sets["n"] = map[string]gostatsd.Set{
+		"ka": {Values: map[string]struct{}{m1: {}, "x2": {}}, Tags: ta, Source: sa},
+		"kb": {Values: map[string]struct{}{m2: {}, "y2": {}}, Tags: tb, Source: sb}}
+	hfh.postMetrics(context.Background(), mm, "", 7)
+	verifAssert(up.attempts == 1 && up.lastStatus == 202, "the request is accepted with 202")
+	verifAssert(len(up.rec.maps) == 1, "the ingesting server dispatches exactly one map")
+	if len(up.rec.maps) == 1 {
+		out := up.rec.maps[0]
+		verifAssert(len(out.Counters["n"]) == 2 && len(out.Gauges["n"]) == 2 && len(out.Timers["n"]) == 2 && len(out.Sets["n"]) == 2, "both series of a name arrive")
+		verifCheckDecoded(mm, out)
+		verifReach("decoded")
+	}
+}
+
 // VerifC14_Event: an event through the forwarder and the ingesting server.
 func VerifC14_Event() {
 	compress, ct := verifCompression()
